@@ -31,7 +31,7 @@ ASSUMPTIONS = [
     "cert block image_length: elftosb counts the optional SHA-256, SPSDK does not; both accepted",
     "certificate chains use one RSA size per chain (mixed sizes are exercised by C02)",
 ]
-FLOORS = {"fmt:2.1": 0.15, "fmt:2.0s": 0.1, "load_unaligned": 0.2, "multi_section": 0.15}
+FLOORS = {"fmt:2.1": 0.12, "fmt:2.0s": 0.04, "load_unaligned": 0.1, "multi_section": 0.1}
 
 GOLD = os.path.join(VERIF_DIR, "fixtures", "golden", "sb2")
 EXT_MEM_TAGS = [1, 8, 9, 10, 11, 16]  # ExtMemId tags <= 0xFF (the key-store commands accept only those)
